@@ -209,6 +209,10 @@ pub fn depth1() -> Vec<Ty> {
     out.insert(Ty::Union((0..17).map(|k| Ty::Fun((0..k).map(|j| atoms4[j % 4].clone()).collect(), Box::new(i.clone()))).collect()));
     out.insert(Ty::Union((0..9).map(|k| Ty::Arr(Box::new(Ty::Tup(vec![atoms4[k % 4].clone(); 2 + k / 4])))).chain([Ty::Void, st.clone()]).collect()));
     out.insert(fn_n(16));
+    // many brackets in one flat type
+    out.insert(Ty::Tup((0..36).map(|k| Ty::Arr(Box::new(atoms4[k % 4].clone()))).collect()));
+    out.insert(Ty::Struct((0..40).map(|k| (format!("h{k:02}"), fn_n(k % 3))).collect()));
+    out.insert(Ty::Union((0..34).map(|k| Ty::Arr(Box::new(Ty::Tup(vec![atoms4[k % 4].clone(); 2 + k / 4])))).collect()));
     let mut deep_arr = i.clone();
     let mut deep_mut = st.clone();
     let mut deep_fn = f.clone();
